@@ -23,7 +23,8 @@ import (
 	"github.com/jcmturner/gokrb5/v8/zzverif/vsched"
 )
 
-var spns = map[string]string{"s1": "HTTP/host.test.gokrb5", "s2": "HTTP/host2.test.gokrb5", "sx": "HTTP/host.other.gokrb5"}
+var spns = map[string]string{"s1": "HTTP/host.test.gokrb5", "s2": "HTTP/host2.test.gokrb5", "sx": "HTTP/host.other.gokrb5",
+	"sA": "HTTP/appserver"} // sA (a host no [domain_realm] entry matches) is used by the directed histories only
 
 // events of the history alphabet
 var alphabet = []string{"login", "ticket:s1", "ticket:s2", "ticket:sx", "adv:+1s", "adv:next-timer", "adv:ticket-end-1s", "adv:ticket-end+1s", "adv:tgt-end+1s", "adv:renew-till+1s", "adv:elapse-2-lifetimes", "destroy"}
@@ -536,6 +537,34 @@ func Run(c *engine.Ctx) {
 		o.ExtraAddresses = []string{"10.1.2.3", "2001:db8::7"}
 		s, t, e := bfs(c, o, 2, maxStates)
 		states, transitions, exh = states+s, transitions+t, exh && e
+	}
+	// default_tgs_enctypes different from default_tkt_enctypes (both orders of two etypes, and disjoint lists)
+	for _, pr := range [][2][]int32{{{18, 17}, {17, 18}}, {{18}, {17}}, {{17, 23}, {23}}} {
+		o := cworld.DefaultOpts()
+		o.ETypes, o.TGSETypes = pr[0], pr[1]
+		s, t, e := bfs(c, o, 2, maxStates)
+		states, transitions, exh = states+s, transitions+t, exh && e
+	}
+	// the client's realm is not the default realm; a service whose host no [domain_realm] entry matches lives in the
+	// client's realm: directed histories
+	for _, h := range [][]string{{"login", "ticket:sA"}, {"ticket:sA"}, {"login", "ticket:s1", "ticket:sA", "ticket:sx"}} {
+		for _, elsewhere := range []bool{false, true} {
+			o := cworld.DefaultOpts()
+			o.DefaultRealmElsewhere = elsewhere
+			res, pn, blocked := replay(o, h)
+			transitions++
+			rec := map[string]interface{}{"config": o, "history": h}
+			if pn != "" || len(blocked) > 0 {
+				c.Violate("histories", "panic-or-deadlock:directed-history", map[string]interface{}{"panic": pn, "blocked": blocked}, rec)
+				continue
+			}
+			for _, r := range res {
+				for _, v := range r.Viol {
+					c.Violate("histories", v.key, map[string]interface{}{"what": v.what, "event": r.Event, "error": r.Err}, rec)
+				}
+			}
+			c.Distinct(fmt.Sprintf("directed/%v/%v", elsewhere, h))
+		}
 	}
 	cfgs := pairwise()
 	for _, o := range cfgs {
